@@ -374,16 +374,24 @@ Definition fault_verdict (ct : str) (ms : list str) (file : str) (nclean : N) (o
 
 Definition group_verdicts (ct : str) (ms : list str) (file : str) (nclean : N) (o : fobs) : list N :=
   if oend_crashed (fo_raw_end o) || oend_crashed (fo_blk_end o) then [4] else
+  (if oend_eqb (fo_raw_end o) EHuge then [6] else []) ++
   map (fault_verdict ct ms file nclean o) (flat_map (expand file) (fo_faults o)).
 
+(* code 6 (known finding C16-corrupt-length-prefix-huge-allocation): everything else is in order, but in some
+   group the real reader was about to allocate the number of bytes a corrupted length prefix claims (above the
+   harness's cap) for a file of a few hundred bytes: dbin's ReadMessage allocates before it reads *)
 Fixpoint agg (cs : list N) (has4 has5 : bool) (bits : N) : N :=
   match cs with
   | [] => if has4 then 4 else if has5 then 5 else bits
   | c :: r =>
       if c =? 4 then agg r true has5 bits
       else if c =? 5 then agg r has4 true bits
+      else if c =? 6 then agg r has4 has5 bits
       else agg r has4 has5 (N.lor bits c)
   end.
+Definition agg6 (cs : list N) : N :=
+  let v := agg cs false false 0 in
+  if (v =? 0) && existsb (N.eqb 6) cs then 6 else v.
 
 Definition faults_verdict ct ms (flen fsum : N) orig clean_c fs : N :=
   let file := file_bytes ct ms in
@@ -392,7 +400,7 @@ Definition faults_verdict ct ms (flen fsum : N) orig clean_c fs : N :=
     (if (lenN file =? flen) && (wsum file =? fsum) && resolved_ok orig clean_c then 0 else 1) +
     (* the reference list itself: the clean read is the input (the property's round trip) *)
     (if round_ok orig clean (if existsb unsupported_legacy orig then EErr else EEof) then 0 else 2) in
-  agg (base :: flat_map (group_verdicts ct ms file (lenN clean)) fs) false false 0.
+  agg6 (base :: flat_map (group_verdicts ct ms file (lenN clean)) fs).
 
 (* ------------------------------------------------------------------ names *)
 
